@@ -79,3 +79,15 @@ Example seq_history :
   snd (seq_run store0 [CAdd KC "A" 1; CAdd KC "A" 2; CAdd KC "A" 1; CAdd KI "A" 1; CGet KC "a"; CAdd KF "f" 1; CAdd KF "f" 1; CGet KF "\f"])
   = [ROk; RErr; ROk; RErr; RFound [1]; ROk; RErr; RFound [1]].
 Proof. reflexivity. Qed.
+
+(* GetOrLoadClass is NOT one atomic method: it is GetClass; [unlocked: GetPhpFileCache, SetPhpFileCache, parse,
+   AddClass]; GetClass.  Every piece is linearizable (registry_linearizable), yet the whole is not: a second
+   thread can observe "file already marked loaded" while the class is not registered yet — the state in which
+   DefaultClassPathManager.LoadClass gives up with "class not found in file" (KNOWN_FINDINGS autoload-race) *)
+Example autoload_window_refuted :
+  let s := crun (cinit store0 [[CGet KC "P"; CGetFile "P.php"; CSetFile "P.php"; CAdd KC "P" 1; CGet KC "P"];
+                               [CGet KC "P"; CGetFile "P.php"; CGet KC "P"]])
+                [0;0;0;0; 0;0;0; 0;0;0;  1;1;1;1; 1;1;1; 1;1;1;1;  0;0;0;0;0;0; 0;0;0;0;0]%nat in
+  returned_of s 1 = [RFound []; RFound [1]; RFound []] /\
+  returned_of s 0 = [RFound []; RFound []; ROk; ROk; RFound [1]].
+Proof. vm_compute. split; reflexivity. Qed.
